@@ -268,9 +268,20 @@ def case_key(v):
     return core.canon([v["pa"], v["ra"], v.get("tagged", False), v["pv"], v["rv"]])
 
 
+CONTAINER_NESTS = ("elem", "mapkey", "mapval", "elem_nested", "mapval_nested", "mapkey_alias", "whole_elem", "whole_mapval")
+
+
+def emptyish(a, x):
+    """Emptyish of HTTPTransport.tla: an empty list / map / byte string"""
+    return not hg.is_absent(x) and ((a["nest"] in CONTAINER_NESTS and x["cn"] == 0) or (a["kind"] == "bytes" and x["n"] == 0))
+
+
 def abstract_class(a, sent, x):
+    """the class hg.classify gives a concrete value, computed on the abstract one"""
+    if (hg.is_absent(x) or emptyish(a, x)) and (hg.is_absent(sent) or emptyish(a, sent)):
+        return "absent" if hg.is_absent(sent) else "sent"
     if hg.is_absent(x):
-        return "absent" if not (hg.is_absent(sent)) or True else "absent"
+        return "absent"
     if x == sent:
         return "sent"
     d = hg.default_of(a)
@@ -338,7 +349,7 @@ class Explainer:
         self.done |= set(uniq)
         self._run(list(uniq.values()), self.devsets)
 
-    def explain(self, v, o, focus=None):
+    def explain(self, v, o, focus=None, deep=True):
         """Name of the deviation ('a', 'a+b', 'a+b+c') under which the model does what the code did; None when
         there is none - or when the mechanism does it with no deviation at all."""
         if self.table is None or case_key(v) not in self.done:
@@ -346,29 +357,43 @@ class Explainer:
         want = obs_sig(v, o)
         ck = case_key(v)
 
-        def match(sig):
-            keys = focus or want.keys()
-            return all(sig.get(k) == want.get(k) for k in keys)
-
         def find(devsets):
-            for ds in devsets:
-                if any(match(s) for s in self.table.get((ck, "+".join(sorted(ds))), [])):
-                    return "+".join(ds) if ds else ""
+            # an explanation that reproduces everything observed is preferred to one that reproduces the
+            # focused observables only
+            for keys in ([list(want.keys())] + ([focus] if focus else [])):
+                for ds in devsets:
+                    if any(all(sig.get(k) == want.get(k) for k in keys) for sig in self.table.get((ck, "+".join(sorted(ds))), [])):
+                        return "+".join(ds) if ds else ""
             return None
         hit = find(self.devsets)
-        if hit is None:
+        if hit is None and deep:
             if ck not in self.deep:
                 self.deep.add(ck)
                 self._run([v], self.triples)
             hit = find(self.triples)
         return hit or None
 
-    def baseline(self, v, o):
+    def explain_all(self, pairs, focus=None):
+        """[(v, o)] -> [explanation or None], the three-deviation sets tried in one batch for the leftovers"""
+        self.prepare([v for v, _ in pairs])
+        first = [self.explain(v, o, focus, deep=False) for v, o in pairs]
+        left = {}
+        for (v, o), h in zip(pairs, first):
+            ck = case_key(v)
+            if h is None and ck not in self.deep and not self.baseline(v, o, focus):
+                left[ck] = v
+        if left:
+            self.deep |= set(left)
+            self._run(list(left.values()), self.triples)
+        return [h if h is not None or self.baseline(v, o, focus) else self.explain(v, o, focus) for (v, o), h in zip(pairs, first)]
+
+    def baseline(self, v, o, focus=None):
         """the mechanism with no deviation behaves as observed (one of its choices)"""
         if self.table is None or case_key(v) not in self.done:
             self.prepare([v])
         want = obs_sig(v, o)
-        return any(s == want for s in self.table.get((case_key(v), ""), []))
+        keys = focus or want.keys()
+        return any(all(s.get(k) == want.get(k) for k in keys) for s in self.table.get((case_key(v), ""), []))
 
 
 # ------------------------------------------------------------------ trace validation (J) of the executed scenarios
@@ -394,8 +419,8 @@ def explained_ids(ex, cases):
     """ids of the cases whose observed behaviour is exactly the mechanism's under some named deviation
     (they are reported under that deviation's key by the checks and stay out of the trace)."""
     odd = [c for c in cases if obs_sig(c["v"], c["obs"]) != mech_sig(c["v"])]
-    ex.prepare([c["v"] for c in odd])
-    return {c["id"] for c in odd if ex.explain(c["v"], c["obs"]) is not None}
+    hits = ex.explain_all([(c["v"], c["obs"]) for c in odd])
+    return {c["id"] for c, h in zip(odd, hits) if h is not None}
 
 
 def validate_cases(ctx, cases, prop, skip_ids=(), maxfail=5, label="trace", ex=None):
